@@ -57,9 +57,9 @@ class SimpleMatcher(BaseMatcher):
               to be a proper probability (thus values between 0.0 and 1.0).
         """
         logprob = 0
-        if prev_m.edge_m.label == edge_m.label:
+        if prev_m.edge_m.labels == edge_m.labels:
             # Staying in same state
-            if self.avoid_goingback and edge_m.key == prev_m.edge_m.key and edge_m.ti < prev_m.edge_m.ti:
+            if self.avoid_goingback and edge_m.labels == prev_m.edge_m.labels and edge_m.ti < prev_m.edge_m.ti:
                 # Going back on edge
                 logprob += self.gobackonedge_factor_log  # prefer not going back
         else:
@@ -69,7 +69,7 @@ class SimpleMatcher(BaseMatcher):
                 # Goin back on state
                 going_back = False
                 for m in prev_m.prev:
-                    if edge_m.label == m.edge_m.label:
+                    if edge_m.labels == m.edge_m.labels:
                         going_back = True
                         break
                 if going_back:
